@@ -41,16 +41,19 @@ CONFIGS = {
     "dimensionless":  [("", 0, 0, 0), ("%", 0, 0, 0)],
     "other_dimension": [("m", 0, 0, 0), ("s", 0, 0, 0)],
     "array_uncertain": [("m", 0, 1, 1), ("c:m", 0, 0, 1)],
+    "compound_units": [("k:m*m", 0, 0, 0), ("c:m*m", 0, 0, 1)],             # a repeated dimension: rebase() has something to merge
+    "mixed_kinds":    [("m", 1, 0, 0), ("m", 0, 1, 0), ("m", 0, 0, 0)],      # Decimal, array and float magnitudes side by side
 }
 # named deviations of QuantityHeap.tla that have been repaired in /repo: those whose findings in known_findings are all
 # `fixed` (none so far); the machine spec then follows the repaired algorithm (DESIGN 4.5).
 ALL_DEVIATIONS = ["rhs_converted_in_place", "log_operands_to_linear", "arg_converted_in_place", "operand_to_rad", "operand_to_none",
-                  "ctor_shares_magnitude", "ctor_mutates_magnitude"]
+                  "ctor_shares_magnitude", "ctor_mutates_magnitude", "decimal_promoted_in_place"]
 FIXED_DEVIATIONS = sorted(set(A.repaired_deviations(PID, ALL_DEVIATIONS)) |
                           {x for x in os.environ.get("VERIF_C07_FIXED", "").split(",") if x})      # (env: trial of a patch only)
 REP_PURE = ["add", "mul", "eq", "neg", "np.sqrt", "np.abs", "np.linspace", "np.sin", "value", "ctor_dict", "getitem", "radd", "pow1"]
 REP_PURE_QUICK = ["add", "mul", "eq", "neg", "np.abs", "np.linspace", "ctor_dict"]
-QUICK_REPAIRED = ["other_unit", "dB_same", "decimal_right", "array_uncertain", "angles", "dimensionless"]
+QUICK_REPAIRED = ["other_unit", "dB_same", "decimal_right", "array_uncertain", "angles", "dimensionless", "compound_units", "mixed_kinds"]
+KINDS_PURE = ["value", "mul", "add", "neg", "eq"]        # histories of two operations over quantities of different kinds
 
 
 def _b(x):
@@ -60,7 +63,7 @@ def _b(x):
 def mc_module(configs, pure, inpl):
     def kind(k):
         u, dec, arr, err = k
-        ux = "<<>>" if u == "" else f'X1("{u}")'
+        ux = "<<>>" if u == "" else " \\o ".join(f'X1("{x}")' for x in u.split("*"))
         return f"K({ux}, {_b(dec)}, {_b(arr)}, {_b(err)})"
     cfgs = ",\n   ".join("<<" + ", ".join(kind(k) for k in c) + ">>" for c in configs)
     return f"""---- MODULE QuantityHeapMC ----
@@ -201,6 +204,17 @@ def perform(a, objs, umap, k):
     raise KeyError(op)
 
 
+def _kind(v):
+    """the kind of number an object reports (part of its state: a float does not become a Decimal by being an operand)"""
+    if v is None:
+        return "none"
+    if isinstance(v, Decimal):
+        return "Decimal"
+    if isinstance(v, np.ndarray):
+        return "array:" + ("Decimal" if v.dtype == object and v.size and isinstance(v.ravel()[0], Decimal) else "float")
+    return "float"
+
+
 def _num(v):
     if v is None:
         return None
@@ -220,7 +234,8 @@ def snapshot(q):
         val, err = q.value(), q.abse()
         if isinstance(val, np.ndarray) and err is not None and not isinstance(err, np.ndarray):
             err = np.full_like(val, float(err), dtype=float)     # one uncertainty for all elements, reported either way
-        return (_num(val), q.units(), _num(err), {k: tuple(v) if isinstance(v, tuple) else v for k, v in bu.items()})
+        return (_num(val), q.units(), _num(err), {k: tuple(v) if isinstance(v, tuple) else v for k, v in bu.items()},
+                _kind(val))
     except Exception as e:                      # an object that can no longer report its state has changed
         return ("#unreadable", type(e).__name__)
 
@@ -285,6 +300,8 @@ def replay_history(job):
                             ou = {u: (A.PyFrac(e[0], e[1]) if isinstance(e, (tuple, list)) else A.PyFrac(e)) for u, e in ou.items()}
                             if names[0] in ("rhs_converted_in_place", "arg_converted_in_place", "operand_to_rad", "operand_to_none"):
                                 as_tr = ou == mu                      # value and units move (the uncertainty may be rescaled)
+                            elif "decimal_promoted_in_place" in names and len(names) == 1:
+                                as_tr = all(same(s0[j], s1[j]) for j in range(4)) and s1[4] == "Decimal"
                             elif names[0] == "log_operands_to_linear":
                                 as_tr = ou == mu and same(s0[1], s1[1]) and same(s0[2], s1[2])
                             else:                                       # shared / mutated Magnitude: only the uncertainty moves
@@ -429,6 +446,10 @@ def run(replay_path=None, replay=None):
     rd = model("pinned_deep", deep_confs, deep_pure, deep_inpl, False, deep_bounds, ["AllNamed"], view=True, prop=False)
     recs += [dict(r, src="deep") for r in rd.records]
     rd.records = None
+    rk = model("pinned_kinds", [CONFIGS["mixed_kinds"], CONFIGS["decimal_right"]], C.tla_str(set(KINDS_PURE)), '{"to"}', False,
+               (2, 2, 1) if t == "quick" else (3, 2, 1), ["AllNamed"], view=True, prop=False)
+    recs += [dict(r, src="deep") for r in rk.records]
+    rk.records = None
     if t != "quick":
         rd4 = model("pinned_deep4", deep4[0], deep4[1], deep4[2], False, deep4[3], ["AllNamed"], view=True, prop=False)
         recs += [dict(r, src="deep") for r in rd4.records if len(r["hist"]) == 4]
@@ -483,7 +504,7 @@ def run(replay_path=None, replay=None):
         "states": states, "transitions": trans, "traces_validated_against_impl": len(jobs),
         "evaluations": len(jobs), "distinct_nontrivial": len(nontriv),
         "rule": "histories = every sequence of <= {} steps (3 for three key configurations in the thorough tier) with <= {} operation(s) of the full alphabet ({} operations incl. all documented "
-                "NumPy functions) and <= {} in-place methods, from 14 initial configurations (TLC, exhaustive), plus one path to every "
+                "NumPy functions) and <= {} in-place methods, from 16 initial configurations (TLC, exhaustive), plus one path to every "
                 "distinct heap state of depth <= {} over 7-12 representative operations; each replayed on real objects with all live objects "
                 "snapshotted after every step; non-trivial = distinct histories with >= 2 steps or a fired deviation".format(
                     full_bounds[0], full_bounds[1], len(ops_seen), full_bounds[2], deep_bounds[0]),
